@@ -226,6 +226,10 @@ def check_property(pid, tier, seed):
     # dynamic checks of stated assumptions about external code
     dyn = []
     for a in pcfg.get('dynamic_assumptions', []):
+        if a.get('kind') == 'generated-glue':
+            g = witness.generated_glue(REPO, BUILD, log)
+            dyn.append(dict(id=a['id'], text=a['text'], **g))
+            continue
         if replay_info and replay_info['ok']:
             dyn.append(witness.run_assumption(a, replay_info['bin'], tier))
         else:
